@@ -578,6 +578,10 @@ def c18(ctx):
     cp, st = family_gen(ctx, "Spl")
     lines = [l for l in open(cp).read().splitlines() if (lambda c: c["op"] in ("SplEval", "SplUn", "SplBin") and same_grid(c) and pick(c, 40 if quick else 8))(json.loads(l))]
     fams.append(("Spl", cp, lines))
+    cp, st = family_gen(ctx, "Gen")
+    lines = [l for l in open(cp).read().splitlines() if (lambda c: c["route"] == 0 and len(c["knots"]) >= c["p"] + 2 and c["p"] >= 1 and pick(c, 12 if quick else 3))(json.loads(l))]
+    lines = [l for l in lines if '"knots":[]' not in l]
+    fams.append(("Gen", cp, lines))
     cp, st = family_gen(ctx, "Ops")
     def opsel(c):
         if c["tag"] == "foreign":
